@@ -177,7 +177,7 @@ def make_judges(ctx):
 def floors(tier):
     cells = [('get_dtype', c, r) for c in ('fxp', 'Q') for r in (None, 'fxp', 'Q')]
     cells += [('parse', op, fam) for op in ('__init__', 'resize') for fam in ('fxp', 'Q', 'UQ', 'S', 'U')]
-    cells += [('fxp_sum', False, 'neg'), ('fxp_sum', True, 'pos'), ('fxp_sum', False, 'pos'), ('fxp_sum', 'Q'), ('attr_complex', 'receiver'), ('attr_complex', 'result')]
+    cells += [('fxp_sum', False, 'neg'), ('fxp_sum', True, 'pos'), ('fxp_sum', False, 'pos'), ('fxp_sum', 'Q'), ('attr_complex', 'receiver'), ('attr_complex', 'result'), ('resize-integer-holder',)]
     return cells
 
 
@@ -247,6 +247,16 @@ def run_case(case, ctx):
                 near2 = _try(lambda: Fxp(None, s, w, nf))
                 if near2 is not None:
                     _try(lambda: near2.resize(dtype='%s%d.%d' % (fams[j % len(fams)], m, nf)))
+            # objects holding integers (built from ints / from nothing with no fraction bits, scalars and arrays) resized by the string, whatever the distance
+            if (nf >= 60 or nf < 0 or j % 6 == 0) and w <= 64:
+                for src in (lambda: Fxp(3 if s else 3, True, 8, 0), lambda: Fxp(None, True, 16, 0), lambda: Fxp([0, 255], False, 8, 0), lambda: Fxp(-256 if s else 256, True, 16, -8)):
+                    o = _try(src)
+                    if o is not None:
+                        if not s:
+                            _try(lambda: o.set_val(abs(np.asarray(o.val)), raw=True))
+                        _try(lambda: o.resize(dtype=fx))
+                _try(lambda: Fxp(None, like=Fxp(3, True, 8, 0), dtype=fx))
+                ctx.floor_hit(('resize-integer-holder',))
             # the configured notation is switched on a live object
             if j % 3 == 0:
                 y = _try(lambda: Fxp(None, s, w, nf, dtype_notation=cfgnot))
